@@ -21,6 +21,7 @@ C07).  Tied to esme.py by feeding the malformed stream of C03/C04 and its own pe
 bound session and comparing what is written and whether the link stays up with `receive`.
 -/
 import SmppVerif.Lemmas.Classes
+import SmppVerif.Lemmas.ReceiveLoop
 
 namespace SmppVerif.Props.C05
 open SmppVerif SmppVerif.Pdu SmppVerif.Receiver SmppVerif.Lemmas.Classes
@@ -100,6 +101,29 @@ theorem escape_only_unusable_header (pdu : List Nat) (dflt : Enc) (e : Exc) (hle
       rw [response_ignored pdu dflt hd hh hr (hop hd).2] at h
       cases h
 
+/-! ### the whole stream -/
+
+open SmppVerif.ReceiveLoop SmppVerif.Lemmas.ReceiveLoop in
+/-- VALID PDUs THAT FOLLOW ARE PROCESSED NORMALLY: the Receiver reading a stream (Model/ReceiveLoop.lean: `_get_pdu` in a
+    loop — 16 octets, the header, command_length - 16 more octets — whatever the sizes of the pieces TCP delivers) that
+    consists of PDUs with recognised headers, followed by an incomplete remainder, handles it PDU by PDU: its actions are
+    the per-PDU actions of `receive`, in order.  An unparsable body, an unsupported command, a stray response never
+    affects how the PDUs after it are read and answered, and none of the actions is an escape: the loop is still running
+    after the last PDU. -/
+theorem stream_handled_pdu_by_pdu (dflt : Enc) (pdus : List (List Nat)) (fuel : Nat) (tail : List Nat)
+    (hf : pdus.length < fuel) (hw : ∀ p ∈ pdus, Framed dflt p ∧ isUnbind p = false) (ht : getPdu tail = .wait) :
+    receiveLoop dflt fuel (pdus.flatten ++ tail) = pdus.map (fun p => receive p dflt) ∧
+    ∀ a ∈ receiveLoop dflt fuel (pdus.flatten ++ tail), ∀ e, a ≠ .escape e :=
+  ⟨receiveLoop_pdus dflt pdus fuel tail hf hw ht, receiveLoop_no_escape dflt pdus fuel tail hf hw ht⟩
+
+/-- non-vacuity (kernel evaluation): enquire_link, a deliver_sm cut short inside its body (command_length says 18),
+    an unsupported request, enquire_link again, then 5 octets of the next header: four answers in order -/
+example : SmppVerif.ReceiveLoop.receiveLoop encGsm 10
+    ([0,0,0,16, 0,0,0,0x15, 0,0,0,0, 0,0,0,7] ++ [0,0,0,18, 0,0,0,5, 0,0,0,0, 0,0,0,4, 0,0] ++
+     [0,0,0,16, 0,0,0,3, 0,0,0,0, 0,0,0,9] ++ [0,0,0,16, 0,0,0,0x15, 0,0,0,0, 0,0,0,8] ++ [0,0,0,16,0]) =
+    [.respond 0x80000015 0 7, .respond genericNack rUnknownErr 4, .respond genericNack rInvCmdId 9, .respond 0x80000015 0 8] := by
+  decide +kernel
+
 /-- non-vacuity / worked examples (kernel evaluation of the receive model): a well-formed
     enquire_link, an unsupported request (query_sm), a deliver_sm cut short, an unknown command id -/
 example : receive [0,0,0,16, 0,0,0,0x15, 0,0,0,0, 0,0,0,7] encGsm = .respond 0x80000015 0 7 := by decide +kernel
@@ -115,3 +139,4 @@ end SmppVerif.Props.C05
 #print axioms SmppVerif.Props.C05.request_answered_once
 #print axioms SmppVerif.Props.C05.response_ignored
 #print axioms SmppVerif.Props.C05.escape_only_unusable_header
+#print axioms SmppVerif.Props.C05.stream_handled_pdu_by_pdu
